@@ -8,6 +8,8 @@ mod p_escape;
 mod p_run;
 mod p_expect;
 mod p_rules;
+mod p_docs;
+mod p_md;
 
 use std::io::{BufWriter, Write};
 
@@ -29,6 +31,7 @@ fn main() {
         "crlf-child" => p_run::crlf_child(&args[1..]),
         "expect" => p_expect::main(&args[1..], &mut w),
         "rules" => p_rules::main(&args[1..], &mut w),
+        "docs" => p_docs::main(&args[1..], &mut w),
         "consts" => p_consts::main(&args[1..], &mut w),
         x => { eprintln!("unknown subcommand {}", x); std::process::exit(2); }
     }
